@@ -2,6 +2,7 @@
 import FontVerif.Model.Base
 import FontVerif.Model.Interp
 import FontVerif.Model.Composite
+import FontVerif.Model.Charstring
 namespace FontVerif.Drv.C02
 open FontVerif FontVerif.Interp
 
@@ -63,6 +64,60 @@ def composite (gid : Nat) (gs : Array GlyphInfo) : String :=
   | .ok o =>
     s!"ok p={o.points + 4} c={o.contours} ms={o.maxSimple} mo={o.maxOther} ds={o.maxDeltaStack} h={if o.hasHinting then 1 else 0}"
 
+/-! charstrings (Model/Charstring.lean) -/
+namespace CS
+open FontVerif.Charstring
+
+def count (k : Nat) (out : List Nat) : Nat := (out.filter (· = k)).length
+
+/-- `ok n=<commands> h=<hash of the kind sequence> m l c z hs vs = per-kind counts, k = masks, kb = mask bytes` -/
+def renderOk (st : St) : String :=
+  let seq := st.out.reverse
+  let h := seq.foldl (fun h k => (h * 31 + k + 1) % 4294967296) 7
+  let masks := seq.filter (· ≥ 8)
+  let mb := masks.foldl (fun a k => a + (k - 8) / 2) 0
+  s!"ok n={seq.length} h={h} m={count 0 seq} l={count 1 seq} c={count 2 seq} z={count 3 seq} hs={count 4 seq} vs={count 5 seq} k={masks.length} kb={mb}"
+
+def parseBlend (t : String) : Option (Option (Nat × List Nat)) :=
+  if t = "none" then some none
+  else match t.splitOn "@" with
+    | [i, rs] =>
+      match parseNat? i, (if rs = "-" then some [] else (rs.splitOn ".").mapM parseNat?) with
+      | some i, some rs => some (some (i, rs))
+      | _, _ => none
+    | _ => none
+
+/-- `cs <cff2:0|1> <global subr INDEX hex> <local subr INDEX hex|none> <none | vsindex@r0.r1…> <charstring hex>` -/
+def cs (cff2 : Bool) (g : List Nat) (l : Option (List Nat)) (blend : Option (Nat × List Nat)) (data : List Nat) : String :=
+  match Charstring.Index.ofBytes cff2 g with
+  | .error e => s!"gsubrs-err:{e.name}"
+  | .ok gi =>
+    let li : Except Charstring.Err (Option Index) :=
+      match l with
+      | none => .ok none
+      | some b => (Index.ofBytes cff2 b).map some
+    match li with
+    | .error e => s!"subrs-err:{e.name}"
+    | .ok li =>
+      let lookup (rs : List Nat) : VsLookup := fun i =>
+        match rs[i]? with
+        | some r => .ok (r, none)
+        | none => .error (.invalidCollectionIndex i)
+      let env : Env := { gsubrs := gi.toSubrs, subrs := li.map Index.toSubrs, blend := blend.map (fun b => lookup b.2) }
+      let st0 : Option St :=
+        match blend with
+        | none => some {}
+        | some (i, rs) => (rs[i]?).map (fun r => initSt i r none)
+      match st0 with
+      | none => "blend-new-err"
+      | some st0 =>
+        match evaluate env data st0 with
+        | .ok st => renderOk st
+        | .error (.err e, _) => s!"err:{e.name}"
+        | .error (.panic k, _) => s!"PANIC:{k}"
+        | .error (.stuck, _) => "stuck"
+end CS
+
 def handle (cmd : String) (args : List String) : Option String :=
   match cmd, args with
   | "interp", [a, b, cp, nf, ni, f, p, g] =>
@@ -77,6 +132,19 @@ def handle (cmd : String) (args : List String) : Option String :=
     match parseNat? g, (spec.splitOn ",").mapM parseGlyph with
     | some g, some gs => some (composite g gs.toArray)
     | _, _ => some "bad-args"
+  | "cs", [v, g, l, b, d] =>
+    match parseNat? v, parseHex? g, (if l = "none" then some none else (parseHex? l).map some), CS.parseBlend b, parseHex? d with
+    | some v, some g, some l, some b, some d => some (CS.cs (v = 1) g l b d)
+    | _, _, _, _, _ => some "bad-args"
+  | "cse", [v, g, l, b, d] =>
+    -- end to end through skrifa: outcome class only (`Subfont::subrs` reports a bad local subr INDEX as the same error)
+    match parseNat? v, parseHex? g, (if l = "none" then some none else (parseHex? l).map some), CS.parseBlend b, parseHex? d with
+    | some v, some g, some l, some b, some d =>
+      let r := CS.cs (v = 1) g l b d
+      if r.startsWith "ok " then some "ok"
+      else if r.startsWith "subrs-err:" then some ("err:" ++ (r.drop 10).toString)
+      else some r
+    | _, _, _, _, _ => some "bad-args"
   | _, _ => none
 
 end FontVerif.Drv.C02
